@@ -5,12 +5,27 @@
 import Mcp.Model.Routing
 import Mcp.Gen.PendingFacts
 namespace Mcp.Routing
+open Mcp.Str
 
-/-- no pending-table lookup takes the posting session into account unless every table's lookup does; a legacy SSE session
-    counts as initialisable if something calls `Initialize()` or the guard in `sendNotificationToSession` is gone; the
-    deferred delete must be present at every insert. -/
+def pdServerTable (n : List Nat) : Option Mcp.Gen.PdTable := Mcp.Gen.pdTables.find? (·.name = n)
+
+/-- Streamable table: `requestIDKey` at the insert and at every lookup. -/
+def streamableIdKeyToday : Bool :=
+  match pdServerTable t!"streamable_server.pendingRequests" with
+  | some t => t.insertKind = t!"idKey" && t.lookupKinds.all (· = t!"idKey") && !t.lookupKinds.isEmpty
+  | none => false
+
+/-- the two multi-session server tables: every lookup site compares the posting session with the entry's. -/
+def answerChecksSessionToday : Bool :=
+  [t!"streamable_server.pendingRequests", t!"sse_server.responses"].all (fun n =>
+    match pdServerTable n with
+    | some t => t.lookupUsesSession
+    | none => false)
+
+/-- A legacy SSE session counts as initialisable if something calls `Initialize()` or the guard in
+    `sendNotificationToSession` is gone; the deferred delete must be present at every insert. -/
 def factsToday : Facts :=
-  ⟨Mcp.Gen.pdTables.all (·.lookupUsesSession),
+  ⟨streamableIdKeyToday, answerChecksSessionToday,
    Mcp.Gen.pdSessionInitializeCalled || !Mcp.Gen.pdSseSendChecksInitialized,
    Mcp.Gen.pdTables.all (·.deferredDelete)⟩
 
